@@ -388,3 +388,7 @@ M('refresh-closes-same-file', ['C13'], RL, "                ret   = 2 if len(log
 M('refresh-newer-or-equal', ['C13'], RL, "            if logfile.timestamp > old_timestamp:\n                ret = 2", "            if logfile.timestamp >= old_timestamp:\n                ret = 2", ['C13.R5'])
 M('seed-C09-raw-ravel-order-K', ['C09'], MQ, "img  = frame.jpg if do_jpg else bytearray(memoryview(frame.image))", "img  = frame.jpg if do_jpg else bytearray(memoryview(frame.image.ravel(order='K')))", ['C09.R3'])
 M('raw-fortran-tobytes', ['C09'], MQ, "img  = frame.jpg if do_jpg else bytearray(memoryview(frame.image))", "img  = frame.jpg if do_jpg else frame.image.tobytes('F')", ['C09.R3'])
+M('seed-C14-rename-before-close', ['C14'], RL, "                    f.write(json_dumps(pos) + '\\n')\n\n                os.rename(head_tmp, head)", "                    f.write(json_dumps(pos) + '\\n')\n                    os.rename(head_tmp, head)", ['C14.R2'])
+M('seek-ignores-offset', ['C14'], RL, "                        else:\n                            read_file.seek(seek_pos)", "                        else:\n                            read_file.seek(0)", ['C14.R5'])
+M('seek-newer-or-equal', ['C14'], RL, "                if logfile.timestamp > seek_timestamp:\n                    break", "                if logfile.timestamp >= seek_timestamp:\n                    break", ['C14.R5'])
+M('tell-end-of-current', ['C14'], RL, "            return (os.path.basename(logfiles[read_idx].path), 0 if read_file is None else\n                read_file.tell() if file_pos else None)", "            return (os.path.basename(logfiles[read_idx].path), logfiles[read_idx].size if read_file is None else\n                read_file.tell() if file_pos else None)", ['C14.R6'])
